@@ -67,6 +67,15 @@ requires the type information from the compiled sources.`, pkg.PkgPath, pkg.Erro
 					}
 					rawConverters = append(rawConverters, converters...)
 				}
+				if funcDecl, ok := decl.(*ast.FuncDecl); ok {
+					docs := parse.CommentToString(funcDecl.Doc)
+					for _, marker := range []string{converterMarker, variablesMarker} {
+						if strings.Contains(docs, marker) {
+							location := pkg.Fset.Position(funcDecl.Pos()).String()
+							return rawConverters, fmt.Errorf("%s: %s may not be defined on a func declaration", location, marker)
+						}
+					}
+				}
 			}
 		}
 	}
